@@ -76,22 +76,26 @@ Init == /\ st = "init" /\ createdir = "none" /\ search = <<>> /\ present = {} /\
 
 \* ---- the rules ----
 CreateDirOf(form) == IF form = "abs" THEN "a" ELSE IF createdir # "none" THEN createdir ELSE "c"
-FirstIn(n) == LET I == {i \in 1..Len(search) : <<search[i], n>> \in present} IN
-              IF I = {} THEN "none" ELSE search[CHOOSE i \in I : \A j \in I : i <= j]
-Resolve(n, form) ==
-    IF form = "abs" /\ <<"a", n>> \in present THEN "a"
-    ELSE IF form = "abs" /\ search = <<>> THEN "none"
-    ELSE IF FirstIn(n) # "none" THEN FirstIn(n)
-    ELSE IF <<"c", n>> \in present THEN "c" ELSE "none"
+\* (parameterised by the state so that the generator can evaluate them on the successor state)
+FirstInG(pres, srch, n) == LET I == {i \in 1..Len(srch) : <<srch[i], n>> \in pres} IN
+                           IF I = {} THEN "none" ELSE srch[CHOOSE i \in I : \A j \in I : i <= j]
+ResolveG(pres, srch, n, form) ==
+    IF form = "abs" /\ <<"a", n>> \in pres THEN "a"
+    ELSE IF form = "abs" /\ srch = <<>> THEN "none"
+    ELSE IF FirstInG(pres, srch, n) # "none" THEN FirstInG(pres, srch, n)
+    ELSE IF <<"c", n>> \in pres THEN "c" ELSE "none"
+Resolve(n, form) == ResolveG(present, search, n, form)
 
 \* what a read of element e returns (FAIL: no file, or the file is too short)
-ReadVal(e) ==
-    LET el == elems[e] IN
+ReadValG(els, pres, fsx, srch, e) ==
+    LET el == els[e] IN
     IF el.kind = "plain" THEN el.data
-    ELSE LET d == Resolve(el.name, el.form) IN
+    ELSE LET d == ResolveG(pres, srch, el.name, el.form) IN
          IF d = "none" THEN <<FAIL>>
-         ELSE LET s == fs[<<d, el.name>>] IN
+         ELSE LET s == fsx[<<d, el.name>>] IN
               IF Len(s) >= el.off + el.len THEN SubSeq(s, el.off + 1, el.off + el.len) ELSE <<FAIL>>
+ReadVal(e) == ReadValG(elems, present, fs, search, e)
+ReadOut(v) == IF v = <<FAIL>> THEN [ret |-> FAIL] ELSE [ret |-> Len(v), data |-> v]
 
 \* ---- actions ----
 Setup == /\ st = "init" /\ st' = "open"
@@ -149,7 +153,7 @@ Promote(e, nm, form, off) ==
 Read(e) ==
     /\ st = "open" /\ elems[e].kind # "none"
     /\ LET v == ReadVal(e) IN
-       Log("Read", [e |-> e], IF v = <<FAIL>> THEN [ret |-> FAIL] ELSE [ret |-> Len(v), data |-> v])
+       Log("Read", [e |-> e], ReadOut(v))
     /\ UNCHANGED <<st, createdir, search, present, fs, elems, truth, home, whole, tainted, wc>>
 
 \* Hstartwrite; Hseek(pos); Hwrite(n bytes) inside the element; Hendaccess
@@ -199,6 +203,14 @@ Reopen ==
     /\ st = "open"
     /\ Log("Reopen", [a |-> 0], [ret |-> 0])
     /\ UNCHANGED <<st, createdir, search, present, fs, elems, truth, home, whole, tainted, wc>>
+
+\* every external file, byte by byte (the audit of a generated behaviour; not part of Next)
+FileSeq == << <<"c", "x">>, <<"c", "y">>, <<"a", "x">>, <<"a", "y">>, <<"b", "x">>, <<"b", "y">> >>
+FilesOut(pres, fsx) == LET S == SelectSeq(FileSeq, LAMBDA f : f \in pres) IN
+                       [i \in 1..Len(S) |-> [dir |-> S[i][1], name |-> S[i][2], data |-> fsx[S[i]]]]
+Dump == /\ st = "open"
+        /\ Log("Dump", [a |-> 0], [files |-> FilesOut(present, fs)])
+        /\ UNCHANGED <<st, createdir, search, present, fs, elems, truth, home, whole, tainted, wc>>
 
 Next ==
     \/ Setup
